@@ -43,7 +43,7 @@ def count_tables(shape_list):
 
 # ---------------------------------------------------------------- labelings
 
-ASC, DESC, WEIRD = 'asc', 'desc', 'weird'
+ASC, DESC, WEIRD, CHAR = 'asc', 'desc', 'weird', 'char'
 
 
 def labels(n, m, labeling=ASC):
@@ -59,6 +59,10 @@ def labels(n, m, labeling=ASC):
     if labeling == DESC:
         return (tuple(f'o{n - 1 - i:03d}' for i in range(n)),
                 tuple(f'p{m - 1 - j:03d}' for j in range(m)))
+    if labeling == CHAR:    # one-character labels (a str is then a collection of labels)
+        if n > 13 or m > 13:
+            raise ValueError('char labeling is for small tables')
+        return (tuple('abcdefghijklm'[:n]), tuple('nopqrstuvwxyz'[:m]))
     if labeling == WEIRD:   # blanks, quotes and non-ASCII inside labels (C20, C10 strings)
         return (tuple(f'o {i}"q' for i in range(n)),
                 tuple(f"p'{j} \u00e4" for j in range(m)))
